@@ -574,11 +574,35 @@ func RunJobScenario(sc *Scenario) (vd *Verdict) {
 			}
 			r.Stats["datasets_deleted"]++
 			r.ev("deleteDataset %s", op.DS)
+			if sc.Property == "C18" {
+				r.M.Drop(op.DS)
+				if r.c18 != nil {
+					delete(r.c18.changed, op.DS)
+					delete(r.c18.commits, op.DS)
+					r.c18.prev.Drop(op.DS)
+				}
+			}
 		case "createDataset":
 			if _, err := r.H.Dsm.CreateDataset(op.DS, nil); err != nil {
 				fail(viol(sc.Property, "harness", "invalid", "create %s: %v", op.DS, err), i)
 				return
 			}
+			if sc.Property == "C18" {
+				r.M.Create(op.DS)
+				if r.c18 != nil {
+					r.c18.prev.Create(op.DS)
+				}
+			}
+		case "resetJob":
+			// the operator has the job start over (POST /job/{id}/reset without a token)
+			if err := r.H.Full.Sched.ResetJob(op.S, ""); err != nil {
+				fail(viol(sc.Property, "harness", "invalid", "reset %s: %v", op.S, err), i)
+				return
+			}
+			if r.c18 != nil {
+				r.c18.tokens = map[string]uint64{}
+			}
+			r.Stats["job_resets"]++
 		case "checkTransformSaw":
 			// what the job's transform was told about an entity of another dataset (lookup, outgoing and incoming
 			// relations) when it transformed the entities named: everything (N=1, the dataset exists) or nothing (N=0,
@@ -1537,7 +1561,16 @@ func (r *JobRun) runFixOp(op *Op, i int) *Violation {
 			runSpec = spec
 		}
 		r.installFaults(id, runSpec)
-		_, ended, err := r.H.RunJobToEnd(id, "incremental", 2*time.Hour)
+		var ended bool
+		var err error
+		if op.N == 1 {
+			// the job's cron trigger fires: all runs of the history go through the one pipeline (and source object) the
+			// scheduler built when the job was defined
+			ended = r.H.RunJobByTrigger(2 * time.Hour)
+			r.Stats["runs_by_trigger"]++
+		} else {
+			_, ended, err = r.H.RunJobToEnd(id, "incremental", 2*time.Hour)
+		}
 		r.clearFaults()
 		if err != nil || !ended {
 			return viol("C18", "job-run", "run-failed", "run %d: %v ended=%v", round, err, ended)
